@@ -33,6 +33,7 @@ import (
 	compact_float "github.com/kstenerud/go-compact-float"
 	"github.com/kstenerud/go-concise-encoding/builder"
 	"github.com/kstenerud/go-concise-encoding/ce"
+	"github.com/kstenerud/go-concise-encoding/ce/events"
 	"github.com/kstenerud/go-concise-encoding/configuration"
 	"github.com/kstenerud/go-concise-encoding/conversions"
 )
@@ -210,7 +211,8 @@ func c19EvVal(e Ev) c19Val {
 			}
 			return c19Val{inf: 1}
 		}
-		return c19_ratDec(d.Negative, new(big.Int).Abs(&d.Coeff), int64(d.Exponent))
+		// (a coefficient with a sign of its own only occurs in values the library built, never in an event)
+		return c19_ratDec(d.Negative != (d.Coeff.Sign() < 0), new(big.Int).Abs(&d.Coeff), int64(d.Exponent))
 	}
 	panic("c19EvVal: not a numeric event: " + e.K)
 }
@@ -435,6 +437,8 @@ type c19Obs struct {
 	F32    float32
 	F64    float64
 	BF     *big.Float
+	BD     *apd.Decimal         // kind "bigdecimal" (only in documents with several numbers)
+	DF     compact_float.DFloat // kind "decimal" (interface{} slots)
 	other  string
 }
 
@@ -451,6 +455,10 @@ func (o c19Obs) String() string {
 		return fmt.Sprintf("float64:%v(bits %016x)", o.F64, math.Float64bits(o.F64))
 	case "bigfloat":
 		return fmt.Sprintf("bigfloat:%s(prec %d)", o.BF.Text('p', 0), o.BF.Prec())
+	case "bigdecimal":
+		return "bigdecimal:" + c19SrcText(Ev{K: "bdf", BDF: o.BD})
+	case "decimal":
+		return "decimal:" + c19SrcText(Ev{K: "df", DF: o.DF})
 	}
 	return "other:" + o.other
 }
@@ -465,6 +473,10 @@ func (o c19Obs) val() c19Val {
 		return c19_ratFloat(o.F64)
 	case "bigfloat":
 		return c19_ratBigFloat(o.BF)
+	case "bigdecimal":
+		return c19EvVal(Ev{K: "bdf", BDF: o.BD})
+	case "decimal":
+		return c19EvVal(Ev{K: "df", DF: o.DF})
 	}
 	return c19Val{nan: true}
 }
@@ -530,6 +542,15 @@ func c19Observe(v interface{}) c19Obs {
 		return c19Obs{kind: "bigfloat", BF: new(big.Float).Copy(x)}
 	case big.Float:
 		return c19Obs{kind: "bigfloat", BF: new(big.Float).Copy(&x)}
+	case *apd.Decimal:
+		if x == nil {
+			return c19Obs{kind: "other", other: "nil *apd.Decimal"}
+		}
+		return c19Obs{kind: "bigdecimal", BD: new(apd.Decimal).Set(x)}
+	case apd.Decimal:
+		return c19Obs{kind: "bigdecimal", BD: new(apd.Decimal).Set(&x)}
+	case compact_float.DFloat:
+		return c19Obs{kind: "decimal", DF: x}
 	}
 	return c19Obs{kind: "other", other: fmt.Sprintf("%T", v)}
 }
@@ -1162,7 +1183,7 @@ func runC19(c *Ctx) {
 	}
 	nBoundary := len(boundary)
 
-	coqBudget := c.Pick(1100, 15000)
+	coqBudget := c.Pick(900, 15000)
 	coqCases := 0
 	addConvCase := func(e Ev, d *c19Dst, o c19Obs, tag string) {
 		ext := c19Ext(e)
@@ -1328,7 +1349,10 @@ func runC19(c *Ctx) {
 	}
 	c.Rep.Extra["e2e_evaluations"] = e2e
 
-	// 4. micro-cases
+	// 4. several numbers in one document
+	runC19Multi(c, g, cf, max2, max10, c.Pick(260, 6000))
+
+	// 5. micro-cases
 	for _, e := range sources {
 		switch e.K {
 		case "fl":
@@ -1364,6 +1388,9 @@ func runC19(c *Ctx) {
 }
 
 func replayC19(r *Replay) (bool, string) {
+	if r.Kind == "multi" {
+		return replayC19Multi(r)
+	}
 	if r.Kind != "conv" {
 		return false, "unknown replay kind " + r.Kind
 	}
@@ -1395,4 +1422,428 @@ func replayC19(r *Replay) (bool, string) {
 		detail += "; required: " + v.expect + " [" + v.key + "]"
 	}
 	return v.ok, detail
+}
+
+// ---------------------------------------------------------------------------
+// several numbers in one document
+//
+// Every number of a document must end up in its own slot with its own value: a slot of a
+// list / array / struct / map that holds anything other than what the same number gives when it
+// is alone in the same kind of document (and other than the number itself) has been disturbed
+// by another number of the document - key C19/aliasing/<source-form>-><destination-kind>.
+
+type c19Elem struct {
+	name string
+	typ  reflect.Type
+	kind string // as c19Dst.kind, plus bigdecimal, any
+	coq  string // model destination, "" if the model has none
+}
+
+func c19Elems() []c19Elem {
+	out := []c19Elem{}
+	for _, d := range c19Dsts {
+		out = append(out, c19Elem{d.name, reflect.TypeOf(d.tmpl), d.kind, d.coq})
+	}
+	out = append(out,
+		c19Elem{"apd.Decimal", reflect.TypeOf(apd.Decimal{}), "bigdecimal", ""},
+		c19Elem{"*apd.Decimal", reflect.TypeOf((*apd.Decimal)(nil)), "bigdecimal", ""},
+		c19Elem{"interface{}", reflect.TypeOf((*interface{})(nil)).Elem(), "any", ""})
+	return out
+}
+
+func c19ElemByName(n string) *c19Elem {
+	for _, e := range c19Elems() {
+		if e.name == n {
+			e := e
+			return &e
+		}
+	}
+	return nil
+}
+
+var c19Containers = []string{"slice", "array", "struct", "map"}
+
+func c19ContainerTemplate(container string, elem reflect.Type, k int) interface{} {
+	switch container {
+	case "slice":
+		return reflect.MakeSlice(reflect.SliceOf(elem), 0, 0).Interface()
+	case "array":
+		return reflect.New(reflect.ArrayOf(k, elem)).Elem().Interface()
+	case "struct":
+		fs := []reflect.StructField{}
+		for i := 0; i < k; i++ {
+			fs = append(fs, reflect.StructField{Name: fmt.Sprintf("F%d", i), Type: elem})
+		}
+		return reflect.New(reflect.StructOf(fs)).Elem().Interface()
+	case "map":
+		return reflect.MakeMap(reflect.MapOf(reflect.TypeOf(""), elem)).Interface()
+	}
+	panic("container " + container)
+}
+
+func c19Key(i int) Ev {
+	return Ev{K: "sa", A: events.ArrayTypeString, Data: []byte(fmt.Sprintf("f%d", i))}
+}
+
+// the event sequence of the document body
+func c19ContainerEvents(container string, elems []Ev) []Ev {
+	out := []Ev{}
+	switch container {
+	case "slice", "array":
+		out = append(out, Ev{K: "l"})
+		out = append(out, elems...)
+	default:
+		out = append(out, Ev{K: "m"})
+		for i, e := range elems {
+			out = append(out, c19Key(i), e)
+		}
+	}
+	return append(out, Ev{K: "e"})
+}
+
+func c19ContainerCTE(container string, elems []Ev) (string, bool) {
+	parts := []string{}
+	for i, e := range elems {
+		t, ok := c19CTEText(e)
+		if !ok {
+			return "", false
+		}
+		t = strings.TrimPrefix(t, "c0 ")
+		if container == "struct" || container == "map" {
+			t = fmt.Sprintf("\"f%d\"=%s", i, t)
+		}
+		parts = append(parts, t)
+	}
+	if container == "struct" || container == "map" {
+		return "c0 {" + strings.Join(parts, " ") + "}", true
+	}
+	return "c0 [" + strings.Join(parts, " ") + "]", true
+}
+
+// the slots of a built container, in document order
+func c19ContainerSlots(container string, built interface{}, k int) ([]c19Obs, string) {
+	rv := reflect.ValueOf(built)
+	for rv.IsValid() && rv.Kind() == reflect.Ptr && !rv.IsNil() && (rv.Elem().Kind() == reflect.Struct && container == "struct" || rv.Elem().Kind() == reflect.Array) {
+		rv = rv.Elem()
+	}
+	if !rv.IsValid() {
+		return nil, "nothing built"
+	}
+	out := []c19Obs{}
+	switch container {
+	case "slice", "array":
+		if (rv.Kind() != reflect.Slice && rv.Kind() != reflect.Array) || rv.Len() != k {
+			return nil, fmt.Sprintf("built %v, expected %d elements", rv.Type(), k)
+		}
+		for i := 0; i < k; i++ {
+			out = append(out, c19Observe(rv.Index(i).Interface()))
+		}
+	case "struct":
+		if rv.Kind() != reflect.Struct || rv.NumField() != k {
+			return nil, fmt.Sprintf("built %v", rv.Type())
+		}
+		for i := 0; i < k; i++ {
+			out = append(out, c19Observe(rv.Field(i).Interface()))
+		}
+	case "map":
+		if rv.Kind() != reflect.Map || rv.Len() != k {
+			return nil, fmt.Sprintf("built %v with %d entries, expected %d", rv.Type(), rv.Len(), k)
+		}
+		for i := 0; i < k; i++ {
+			v := rv.MapIndex(reflect.ValueOf(fmt.Sprintf("f%d", i)))
+			if !v.IsValid() {
+				return nil, fmt.Sprintf("map entry f%d missing", i)
+			}
+			out = append(out, c19Observe(v.Interface()))
+		}
+	}
+	return out, ""
+}
+
+// one document with the given numbers through one route. failed: an error was reported.
+func c19MultiRun(route, container string, elem *c19Elem, elems []Ev) (slots []c19Obs, failed bool, doc []byte, note string) {
+	defer func() {
+		if r := recover(); r != nil {
+			if route == "direct" {
+				slots, failed = nil, true // the builder reports errors by panicking
+			} else {
+				slots, note = nil, fmt.Sprintf("panic out of %s: %v", route, r)
+			}
+		}
+	}()
+	cfg := c19Config(true)
+	k := len(elems)
+	tmpl := c19ContainerTemplate(container, elem.typ, k)
+	body := c19ContainerEvents(container, elems)
+	var built interface{}
+	switch route {
+	case "direct":
+		b := c19Session(cfg).NewBuilderFor(tmpl)
+		b.OnBeginDocument()
+		b.OnVersion(0)
+		for _, e := range body {
+			play(b, e)
+		}
+		b.OnEndDocument()
+		built = b.GetBuiltObject()
+	case "cbe":
+		var buf bytes.Buffer
+		enc := ce.NewCBEEncoder(cfg)
+		enc.PrepareToEncode(&buf)
+		enc.OnBeginDocument()
+		enc.OnVersion(0)
+		for _, e := range body {
+			play(enc, e)
+		}
+		enc.OnEndDocument()
+		doc = append([]byte{}, buf.Bytes()...)
+		v, err := c19Unmarshaler("cbe", cfg).UnmarshalFromDocument(doc, tmpl)
+		if err != nil {
+			return nil, true, doc, ""
+		}
+		built = v
+	case "cte":
+		text, ok := c19ContainerCTE(container, elems)
+		if !ok {
+			return nil, false, nil, "no CTE spelling"
+		}
+		doc = []byte(text)
+		v, err := c19Unmarshaler("cte", cfg).UnmarshalFromDocument(doc, tmpl)
+		if err != nil {
+			return nil, true, doc, ""
+		}
+		built = v
+	default:
+		return nil, false, nil, "unknown route " + route
+	}
+	slots, note = c19ContainerSlots(container, built, k)
+	return slots, false, doc, note
+}
+
+func c19ObsSame(a, b c19Obs) bool {
+	if a.failed || b.failed || a.kind != b.kind {
+		return a.failed == b.failed && a.kind == b.kind
+	}
+	switch a.kind {
+	case "float32":
+		return math.Float32bits(a.F32) == math.Float32bits(b.F32)
+	case "float64":
+		return math.Float64bits(a.F64) == math.Float64bits(b.F64)
+	case "bigfloat":
+		return a.BF.Cmp(b.BF) == 0 && a.BF.Signbit() == b.BF.Signbit() && a.BF.Prec() == b.BF.Prec()
+	case "other":
+		return a.other == b.other
+	}
+	av, bv := a.val(), b.val()
+	return c19Same(av, bv) || av.nan && bv.nan || av.huge && bv.huge
+}
+
+type c19MultiFinding struct {
+	slot          int
+	key, exp, got string
+}
+
+// judge a document of several numbers: alone[i] is what number i gives as the only number of the
+// same kind of document through the same route
+func c19MultiJudge(elem *c19Elem, elems []Ev, alone, slots []c19Obs) []c19MultiFinding {
+	out := []c19MultiFinding{}
+	for i, e := range elems {
+		if c19ObsSame(slots[i], alone[i]) {
+			continue
+		}
+		if c19Same(slots[i].val(), c19EvVal(e)) {
+			continue // different representation, still the number itself
+		}
+		out = append(out, c19MultiFinding{slot: i,
+			key: fmt.Sprintf("C19/aliasing/%s->%s", c19KindName[e.K], elem.kind),
+			exp: fmt.Sprintf("slot %d holds what %s gives on its own: %s", i, c19SrcText(e), alone[i].String()),
+			got: fmt.Sprintf("slot %d holds %s", i, slots[i].String())})
+	}
+	return out
+}
+
+func c19SrcsText(es []Ev) string {
+	ss := []string{}
+	for _, e := range es {
+		ss = append(ss, c19SrcText(e))
+	}
+	return strings.Join(ss, " ")
+}
+
+// the numbers of a group that convert on their own (a document with a refused number is refused as a whole)
+func c19MultiAlone(route, container string, elem *c19Elem, group []Ev) (kept []Ev, alone []c19Obs) {
+	for _, e := range group {
+		s, failed, _, note := c19MultiRun(route, container, elem, []Ev{e})
+		if failed || note != "" || len(s) != 1 || s[0].kind == "other" {
+			continue
+		}
+		kept = append(kept, e)
+		alone = append(alone, s[0])
+	}
+	return
+}
+
+// groups of 2-4 distinct numbers of one source form
+func c19MultiGroups(g *c19Gen, random int) [][]Ev {
+	ni := func(v uint64) Ev { return Ev{K: "ni", N: v} }
+	pi := func(v uint64) Ev { return Ev{K: "pi", N: v} }
+	bi := func(s string) Ev { return Ev{K: "bi", Big: c19_bigOf(s)} }
+	bd := func(neg bool, c string, x int32) Ev {
+		d := &apd.Decimal{Negative: neg, Exponent: x}
+		d.Coeff.Set(c19_bigOf(c))
+		return Ev{K: "bdf", BDF: d}
+	}
+	bf := func(neg bool, m string, x int, prec uint) Ev {
+		return Ev{K: "bf", BF: c19MakeBigFloat(neg, c19_bigOf(m), x, prec)}
+	}
+	df := func(c int64, x int32) Ev { return Ev{K: "df", DF: compact_float.DFloat{Coefficient: c, Exponent: x}} }
+	groups := [][]Ev{
+		// wide negative integers: below -2^63, delivered as OnNegativeInt(uint64)
+		{ni(1<<63 + 1), ni(1<<64 - 1), ni(12345678901234567890)},
+		{ni(1<<63 + 5), ni(1 << 63)},
+		{ni(1<<64 - 1), ni(1<<63 + 1), ni(1<<63 + 2), ni(9999999999999999999)},
+		// wide negative integers delivered as big integers
+		{bi("-9223372036854775809"), bi("-18446744073709551615"), bi("-18446744073709551616"), bi("-1267650600228229401496703205376")},
+		// wide positive integers: above 2^64-1, and the top of the uint64 range
+		{bi("18446744073709551616"), bi("18446744073709551617"), bi("340282366920938463463374607431768211456")},
+		{bi("1180591620717411303424"), bi("18446744073709551616")},
+		{pi(1<<64 - 1), pi(1<<63 + 1), pi(1 << 63)},
+		// big decimals
+		{bd(false, "123456789012345678901234567890", 0), bd(true, "987654321098765432109876543210", -3), bd(false, "5", 30)},
+		{bd(false, "18446744073709551616", 0), bd(false, "18446744073709551617", 0), bd(true, "18446744073709551616", 2), bd(false, "15", -1)},
+		// big floats
+		{bf(false, "1267650600228229401496703205377", 0, 128), bf(true, "3", -1, 64), bf(false, "1267650600228229401496703205379", -20, 128)},
+		{bf(false, "18446744073709551617", 0, 65), bf(true, "18446744073709551619", 0, 65)},
+		// the narrower forms
+		{df(15, -1), df(-5, 3), df(12345, -2), df(7, 0)},
+		{Ev{K: "i", I: -5}, Ev{K: "i", I: math.MinInt64}, Ev{K: "i", I: 77}},
+		{pi(5), pi(200), pi(70000)},
+		{ni(5), ni(200), ni(1<<63 - 1)},
+		{Ev{K: "fl", F: 1.5}, Ev{K: "fl", F: -2.25}, Ev{K: "fl", F: 1e30}},
+	}
+	for i := 0; i < random; i++ {
+		first := g.source()
+		grp := []Ev{first}
+		for tries := 0; len(grp) < 2+g.c.Rng.Intn(3) && tries < 60; tries++ {
+			e := g.source()
+			if e.K == first.K {
+				grp = append(grp, e)
+			}
+		}
+		if len(grp) >= 2 {
+			groups = append(groups, grp)
+		}
+	}
+	return groups
+}
+
+// runC19Multi: documents carrying several numbers. budget: how many slots may become Coq cases.
+func runC19Multi(c *Ctx, g *c19Gen, cf *caseFile, max2, max10 int64, budget int) {
+	groups := c19MultiGroups(g, c.Pick(12, 300))
+	nFixed := len(groups) - 0
+	elems := c19Elems()
+	coq := 0
+	docs := 0
+	for gi, group := range groups {
+		wide := gi < 11 // the fixed groups of wide values: every container, every destination, every route
+		for ei := range elems {
+			elem := &elems[ei]
+			if elem.coq != "" && !c19InScope(group[0].K, c19DstByName(elem.name)) {
+				continue
+			}
+			for ci, container := range c19Containers {
+				for ri, route := range []string{"direct", "cbe", "cte"} {
+					if !wide && !c.Thorough() && (gi+ei+ci+ri)%3 != 0 {
+						continue
+					}
+					kept, alone := c19MultiAlone(route, container, elem, group)
+					if len(kept) < 2 {
+						c.Dist(fmt.Sprintf("multi/%s/%s->%s/fewer-than-two-numbers-convert", route, c19KindName[group[0].K], elem.kind))
+						continue
+					}
+					slots, failed, doc, note := c19MultiRun(route, container, elem, kept)
+					docs++
+					key := fmt.Sprintf("multi|%s|%s|%s|%s", route, container, elem.name, c19SrcsText(kept))
+					c.Count(key, !failed)
+					in := map[string]string{"route": route, "container": container, "dst": elem.name, "srcs": c19SrcsText(kept)}
+					if doc != nil {
+						in["doc_hex"] = hex.EncodeToString(doc)
+					}
+					switch {
+					case note != "":
+						c.Dist(fmt.Sprintf("multi/%s/%s/%s->%s/unexpected-shape", route, container, c19KindName[group[0].K], elem.kind))
+						c.Fail(Replay{Kind: "multi", Key: fmt.Sprintf("C19/aliasing/%s->%s", c19KindName[group[0].K], elem.kind), Input: in,
+							Expect: fmt.Sprintf("%d slots, each with its own number (every number converts on its own)", len(kept)), Got: note})
+						continue
+					case failed:
+						c.Dist(fmt.Sprintf("multi/%s/%s/%s->%s/error", route, container, c19KindName[group[0].K], elem.kind))
+						continue
+					}
+					fs := c19MultiJudge(elem, kept, alone, slots)
+					if len(fs) == 0 {
+						c.Dist(fmt.Sprintf("multi/%s/%s/%s->%s/every-slot-own-number", route, container, c19KindName[group[0].K], elem.kind))
+					} else {
+						c.Dist(fmt.Sprintf("multi/%s/%s/%s->%s/VIOLATION", route, container, c19KindName[group[0].K], elem.kind))
+					}
+					for _, f := range fs {
+						c.Fail(Replay{Kind: "multi", Key: f.key, Input: in, Expect: f.exp, Got: f.got})
+					}
+					if len(c.Rep.Samples) < 8 && wide && route == "cbe" && ei%5 == 0 {
+						c.Sample(map[string]string{"route": route, "container": container, "dst": elem.name, "numbers": c19SrcsText(kept), "doc_hex": hex.EncodeToString(doc)})
+					}
+					// correspondence: the model converts every number on its own. The document routes are tied through the
+					// events the decoder delivers, which the direct route feeds as they are.
+					if elem.coq != "" && route == "direct" && coq < budget && (len(fs) > 0 || c.Thorough() || wide && (ci+ei)%2 == 0 || c.Rng.Intn(100) < 10) {
+						d := c19DstByName(elem.name)
+						for i, e := range kept {
+							if !c19CoqFriendly(e) || slots[i].kind == "other" {
+								continue
+							}
+							cf.Add(cApp("ConvCase", cZ(max2), cZ(max10), c19SrcCoq(e), d.coq, c19_cOptBfl(c19Ext(e)), slots[i].coq()),
+								fmt.Sprintf("multi direct %s slot %d of [%s] -> %s : %s", container, i, c19SrcsText(kept), d.name, slots[i].String()))
+							coq++
+						}
+					}
+				}
+			}
+		}
+	}
+	_ = nFixed
+	c.Rep.Extra["multi_number_documents"] = docs
+}
+
+func replayC19Multi(r *Replay) (bool, string) {
+	elem := c19ElemByName(r.Input["dst"])
+	if elem == nil {
+		return false, "unknown destination " + r.Input["dst"]
+	}
+	es := []Ev{}
+	for _, t := range strings.Fields(r.Input["srcs"]) {
+		e, err := c19ParseSrc(t)
+		if err != nil {
+			return false, err.Error()
+		}
+		es = append(es, e)
+	}
+	route, container := r.Input["route"], r.Input["container"]
+	kept, alone := c19MultiAlone(route, container, elem, es)
+	if len(kept) != len(es) {
+		return true, "not every number converts on its own any more; the document may be refused"
+	}
+	slots, failed, doc, note := c19MultiRun(route, container, elem, kept)
+	detail := fmt.Sprintf("route %s, %s of %s with the numbers [%s]", route, container, elem.name, c19SrcsText(kept))
+	if doc != nil {
+		detail += " [document hex " + hex.EncodeToString(doc) + "]"
+	}
+	if note != "" {
+		return false, detail + ": " + note
+	}
+	if failed {
+		return true, detail + ": error reported"
+	}
+	fs := c19MultiJudge(elem, kept, alone, slots)
+	if len(fs) == 0 {
+		return true, detail + ": every slot holds its own number"
+	}
+	return false, fmt.Sprintf("%s: %s; required: %s [%s]", detail, fs[0].got, fs[0].exp, fs[0].key)
 }
